@@ -52,6 +52,7 @@ for d in dirs:
             "demo_fails_with_change": demo1,
             "repo_suite_passes_with_change": suite,
         },
+        "applies_to_repo_commit": (open(os.path.join(d, "applies_to")).read().strip() if os.path.exists(os.path.join(d, "applies_to")) else None),
         "checks_reporting_violation": caught,
         "checks_run_without_violation": missed,
     }
